@@ -17,6 +17,9 @@ P = {
                 runs=[dict(cmd="c20", quick=3000, thorough=200000, shards_thorough=4)]),
     "C19": dict(theorems=["Properties/C19.v"],
                 runs=[dict(cmd="c19", quick=60, thorough=4000, shards_thorough=8)], vm_k=6),
+    "C23": dict(theorems=["Properties/C23.v"],
+                runs=[dict(cmd="c23", quick=1200, thorough=60000, shards_thorough=6),
+                      dict(cmd="c23ms", quick=1, thorough=1, model=False)], vm_k=20),
     "C09": dict(theorems=["Properties/C09.v"],
                 runs=[dict(cmd="appdb", quick=300, thorough=20000, shards_thorough=4),
                       dict(cmd="c09", quick=16, thorough=600, shards_thorough=8, model=False)]),
@@ -59,6 +62,22 @@ META = {
     "C19": dict(text="Theorems over unbounded Z for every stake vector: the per-block accrual conserves reward+fees, only present non-dropped validators accrue their floor share, dropped validators' rewards return to the pool, the remainder sent to total-slashed is never negative; PayRewardsV5Fix never pays more than accrued plus the locked-stake surplus it adds to the emission, its 'Negative remainder' panic is unreachable, and the split is 10%/10%/commission/bip-share with the property's literals. The model (EndBlock accrual and PayRewardsV5Fix transliterated) is run against the real node block by block: accumulated rewards after every block and the RewardEvents of every payout.",
                 note=TB + "Validator-set changes in the middle of a period (SetNewValidators carrying accumulated rewards over) are checked by a monitor on the node, not modelled.",
                 technique="Coq proof (nia/lia over Z, induction over validators and stakes) + differential correspondence against the real node + monitors"),
+    "C23": dict(
+        text="Theorems: the RLP codec is a bijection between well-formed items and accepted byte strings "
+             "(decode(encode i)=i; decode b = i -> encode i = b; so no value has a second accepted encoding and every "
+             "non-canonical string is rejected), likewise for the typed layer (uint64/uint32/byte/big.Int without leading "
+             "zeros and with width checks; Transaction, Signature, Check structs with exact arity); validate_sig accepts "
+             "exactly V in {27,28}, 0<r<N, 0<s<=N/2, hence the high-S twin and any other V are rejected; the signed bytes "
+             "determine all nine signed fields and a sender exists only as recover(keccak(signed bytes), V-27, r, s). "
+             "The model is run against the real rlp.DecodeBytes (generic tree, Transaction, Check, Signature), "
+             "Executor.DecodeFromBytes and RecoverPlain on valid encodings, 13 kinds of structured non-canonical variants "
+             "(top level, inside signature, inside data), high-S twins, bad V, moved signatures, bit flips and random bytes; "
+             "monitors check re-encoding equality, sender = signing key, and rejection of tampered signatures.",
+        note=TB + "secp256k1 recovery and Keccak are Section parameters (trusted). The per-type Data structs and SignatureMulti "
+             "are covered by the re-encoding monitors only, not modelled. KNOWN FINDING (recorded, not repaired): multisig-signed "
+             "transactions are third-party malleable (vharness c23ms).",
+        technique="Coq proof (induction with fuel over the item tree, big-endian arithmetic by lia) + differential "
+                  "byte-level fuzz against the real decoders + monitors"),
     "C09": dict(text="Theorem (appdb layer, complete): for every history of blocks (arbitrary programs over the appdb API) with any restarts, every getter (height, hash, validators, block times, versions, emission, price) returns what a never-restarted node returns; tied to the source by a translator (Commit write order, Save* guards, dirty-flag assignments) and by running random programs against the real AppDB. Node level: generated histories executed straight and with restarts on the real node, comparing responses, app hashes, emission, exports.",
                 note=TB + "PARTIAL: caches of the state modules (order book, candidates, ...) are not modelled; for them only the node-level restart differential speaks.",
                 technique="Coq proof (invariant: caches coherent with disk after Commit) + regenerated code shape + differential (AppDB programs, node restarts)"),
